@@ -1245,3 +1245,74 @@ def check_fma(ctx, prog, rule, label, path, pty, fname, variant, full, scales=No
                 yield sub, (lambda b2=b2, c_enc=c_enc: args_for(c_enc, posit_input(pty, b2, False), posit_input(pty, b2, True))), [0] + subst(want, a2), mkc(c_enc, b2)
         decide(ctx, I, rule, label, 't=%d v%d %s' % (t, variant, cname), path, mk, {}, res_neg, [0] + want, mkc(c_enc, bits), stats, subs)
     return stats
+
+
+def check_mul_pow2(ctx, prog, rule, label, path, pty, opn, order, full, ts, seed=1):
+    """b * 2^t, 2^t * b and b / 2^t for every posit b (regime cells) and the listed t: the exact result 2^(scale(b) +/- t) * 1.f is b's
+    significand at another scale, so the result must be its posit-rule rounding there (rounding cells of the result scale).
+    order: 'bc' = symbolic operand first, 'cb' = constant first (mul only)."""
+    import collections
+    from rules_routing import regime_cells
+    I = Interp(prog, max_steps=200000)
+    stats = collections.Counter()
+    rng = random.Random(seed)
+    P = pty.posit
+    n, es = pty.bits, pty.es
+    nk = n - 1
+
+    def const_arg(u):
+        u &= mask(n)
+        sv = u - (1 << n) if u >> (n - 1) else u
+        return AAgg(pty.tykey, [AInt.const(n, True, sv)])
+    for t in ts:
+        pw = Fraction(2) ** t
+        pw_enc = P.encode(pw)
+        if P.decode(pw_enc) != pw:
+            continue
+        dt = t if opn == 'mul' else -t
+
+        def mkc(bits, negative):
+            def concrete(asg):
+                u = 0
+                for b in bits:
+                    u = (u << 1) | (asg.get(b[2], asg.get('*', 0)) if is_lit(b) else b)
+                if negative:
+                    u = (-u) & mask(n)
+                v = P.decode(u)
+                args = [const_arg(u), const_arg(pw_enc)] if order == 'bc' else [const_arg(pw_enc), const_arg(u)]
+                return args, '%#x %s 2^%d' % (u, '*' if opn == 'mul' else '/', t), P.encode(v * pw if opn == 'mul' else v / pw), lambda a: I.run(path, a, {})
+            return concrete
+        for negative in (False, True):
+            for k, e, fl, known in regime_cells(n, es):
+                scale = k * (1 << es) + e
+                lits = [lit(fl - 1 - i) for i in range(fl)]
+                B = encoding_string(es, scale + dt, lits)
+                for asg, want, cname in rounding_cases(B, nk, full):
+                    if want is None:
+                        continue
+                    want = clamp_const(want, nk)
+                    bits = [0] + list(known) + subst(lits, asg)
+                    cn = 't=%d %s k=%d e=%d %s' % (t, '-' if negative else '+', k, e, cname)
+                    fa = {}
+                    u = 0
+                    for b in bits:
+                        if is_lit(b):
+                            fa[b[2]] = rng.getrandbits(1)
+                        u = (u << 1) | (fa[b[2]] if is_lit(b) else b)
+                    v = P.decode(u)
+                    assert P.encode(v * pw if opn == 'mul' else v / pw) == instantiate(want, fa), ('oracle mismatch', label, cn)
+
+                    def mk(bits=bits, negative=negative):
+                        bv = posit_input(pty, bits, negative)
+                        return [bv, const_arg(pw_enc)] if order == 'bc' else [const_arg(pw_enc), bv]
+
+                    def subs(bits=bits, want=want, negative=negative):
+                        for a2, sub in refine_cells(list(reversed(bits)), want):
+                            b2 = subst(bits, a2)
+
+                            def mk2(b2=b2, negative=negative):
+                                bv = posit_input(pty, b2, negative)
+                                return [bv, const_arg(pw_enc)] if order == 'bc' else [const_arg(pw_enc), bv]
+                            yield sub, mk2, [0] + subst(want, a2), mkc(b2, negative)
+                    decide(ctx, I, rule, label, cn, path, mk, {}, negative, [0] + want, mkc(bits, negative), stats, subs)
+    return stats
